@@ -16,27 +16,32 @@ import (
 // the driver advances one operation at a time, so the interleaving is the one the driver chose.
 
 type Op struct {
-	Name   string
-	Gate   string // last gate reached ("" before the first)
-	Done   bool
-	Result any
-	parked   chan string
-	resume   chan struct{}
-	done     chan struct{}
-	isParked bool // owned by the driver goroutine
-	SubParks int  // parks at sub-gates (ns:*) since the last protocol gate; owned by the operation's goroutine
+	Name       string
+	Gate       string // last gate reached ("" before the first)
+	Done       bool
+	Result     any
+	parked     chan string
+	resume     chan struct{}
+	done       chan struct{}
+	isParked   bool // owned by the driver goroutine
+	SubParks   int  // parks at sub-gates (ns:*) since the last protocol gate; owned by the operation's goroutine
+	wasBlocked bool // the last wait ran into the step limit: later waits on this operation are short
 }
 
 type Sched struct {
-	mu        sync.Mutex
-	ops       map[int64]*Op
-	Gates     func(point string) bool          // which points park controlled operations
-	GatesOp   func(point string, op *Op) bool  // if set, decides instead of Gates (sees the operation)
-	TaskStop  func(node uint64) <-chan struct{} // periodic task loops park until this closes (nil: run free)
-	Perturb   func(point string, node uint64)  // free-running mode: schedule perturbation
-	StepWait  time.Duration
-	Observe   func(point string, node uint64, op *Op) // called at every gate hit (before parking)
+	mu       sync.Mutex
+	ops      map[int64]*Op
+	Gates    func(point string) bool           // which points park controlled operations
+	GatesOp  func(point string, op *Op) bool   // if set, decides instead of Gates (sees the operation)
+	TaskStop func(node uint64) <-chan struct{} // periodic task loops park until this closes (nil: run free)
+	Perturb  func(point string, node uint64)   // free-running mode: schedule perturbation
+	StepWait time.Duration
+	Observe  func(point string, node uint64, op *Op) // called at every gate hit (before parking)
 }
+
+// Blocked: the operation is neither parked at a gate nor finished: it is waiting for something another operation holds
+// (or still running).  Owned by the driver goroutine, like isParked.
+func (o *Op) Blocked() bool { return !o.Done && !o.isParked }
 
 func NewSched() *Sched {
 	return &Sched{ops: map[int64]*Op{}, StepWait: 5 * time.Second}
@@ -122,18 +127,24 @@ func (s *Sched) Step(op *Op) string {
 }
 
 func (s *Sched) wait(op *Op) string {
-	t := time.NewTimer(s.StepWait)
+	d := s.StepWait
+	if op.wasBlocked && d > 300*time.Millisecond {
+		d = 300 * time.Millisecond
+	}
+	t := time.NewTimer(d)
 	defer t.Stop()
 	select {
 	case p := <-op.parked:
 		op.Gate = p
 		op.isParked = true
+		op.wasBlocked = false
 		return "gate:" + p
 	case <-op.done:
 		op.Done = true
 		op.Gate = "done"
 		return "done"
 	case <-t.C:
+		op.wasBlocked = true
 		return "blocked"
 	}
 }
